@@ -40,14 +40,14 @@ def run_impl(case):
         gap = 0
         just_acked = False
         for t in range(case["ncycles"]):
-            csr_r = rnd.getrandbits(cdw)
+            csr_r = lib.bits(rnd, cdw)
             if style == "random":
                 cyc, stb = int(rnd.random() < .7), int(rnd.random() < .7)
-                we, adr, sel, datw = rnd.getrandbits(1), rnd.getrandbits(aw) if aw else 0, rnd.getrandbits(ratio), rnd.getrandbits(wdw)
+                we, adr, sel, datw = rnd.getrandbits(1), lib.bits(rnd, aw) if aw else 0, lib.bits(rnd, ratio), lib.bits(rnd, wdw)
             else:
                 if cur is None and gap == 0:
-                    cur = (rnd.getrandbits(1), rnd.getrandbits(aw) if aw else 0,
-                           rnd.choice([(1 << ratio) - 1, (1 << ratio) - 1, rnd.getrandbits(ratio), 0]), rnd.getrandbits(wdw))
+                    cur = (rnd.getrandbits(1), lib.bits(rnd, aw) if aw else 0,
+                           rnd.choice([(1 << ratio) - 1, (1 << ratio) - 1, lib.bits(rnd, ratio), 0]), lib.bits(rnd, wdw))
                     t0 = t
                     stats["transfers"] += 1
                     if just_acked:
@@ -62,7 +62,7 @@ def run_impl(case):
                     cyc, stb = rnd.choice([(0, 0), (1, 0), (0, 0)])
                     if cyc and not stb:
                         stats["cyc_without_stb"] += 1
-                    we, adr, sel, datw = rnd.getrandbits(1), rnd.getrandbits(aw) if aw else 0, rnd.getrandbits(ratio), rnd.getrandbits(wdw)
+                    we, adr, sel, datw = rnd.getrandbits(1), lib.bits(rnd, aw) if aw else 0, lib.bits(rnd, ratio), lib.bits(rnd, wdw)
             just_acked = False
             ctx.set(wb.cyc, cyc); ctx.set(wb.stb, stb); ctx.set(wb.we, we); ctx.set(wb.adr, adr)
             ctx.set(wb.sel, sel); ctx.set(wb.dat_w, datw); ctx.set(cbus.r_data, csr_r)
